@@ -18,6 +18,7 @@ from concurrent.futures import ThreadPoolExecutor
 
 from lib.vlib import Inconclusive
 
+MAX_REPORTED = 120
 THEOREMS = "Dec(Enc(v))=v, self-delimiting, no item is a proper prefix, prefix-free, canonical (minimal heads, keys strictly increasing bytewise), Enc(Dec(e))=e, wrap exact"
 
 
@@ -90,10 +91,16 @@ def run(ctx):
     ctx.log("replayed %d behaviours in %d shape runs (%d distinct shape x item classes), %d messages of %d types; %d findings" % (
         res["replayed"], res["evaluations"], res["distinct"], res["messages"], len(res["message_types"]), len(res["findings"] or [])))
 
+    nrep = 0
     for f in res["findings"] or []:
         if f["key"].startswith("harness"):
             raise Inconclusive("replay harness could not build a shape: %s" % json.dumps(f)[:2000])
-        ctx.violation(f["key"], f["what"], f["case"])
+        if nrep < MAX_REPORTED:   # a broken encoder yields thousands of keys; the first ones tell the story
+            if ctx.violation(f["key"], f["what"], f["case"]):
+                nrep += 1
+    if len(res["findings"] or []) > MAX_REPORTED:
+        ctx.notes["findings_not_reported_individually"] = len(res["findings"]) - nrep
+        ctx.log("%d findings in total, %d reported individually" % (len(res["findings"]), nrep))
     if res["ref_mismatch"]:
         raise Inconclusive("the reference codec harness/cb disagrees with Cbor.tla on %d behaviours (not a verdict about the code): %s" % (
             len(res["ref_mismatch"]), json.dumps(res["ref_mismatch"][:3])))
